@@ -25,6 +25,8 @@ TraceNext ==
         /\ last'.out = E.out
         /\ last'.fetched = {<<ToSet(f.meta), f.key>> : f \in ToSet(E.fetched)}
      \/ E.op = "expire" /\ Expire(E.t, E.key)
+     \/ /\ E.op = "caps" /\ Caps(E.svc)
+        /\ last'.out = E.out /\ last'.listed = ToSet(E.listed) /\ last'.dflt = E.dflt
   /\ store' = {<<p[1], p[2]>> : p \in ToSet(E.store)}
   /\ l' = l + 1 /\ tid' = tid
   /\ TLCSet(2, [TLCGet(2) EXCEPT ![tid] = IF @ > l THEN @ ELSE l])
